@@ -70,12 +70,12 @@ Definition obs_exact (t0 I n : Z) (ign : bool) (pt : option (Z * log)) (ob : opt
 
 (* ---- shedder: trace-level notions ---- *)
 Inductive sev :=
-| EAllow (over : bool) (admitted : bool)   (* CPU reading >= threshold?, outcome *)
+| EAllow (over : bool) (let_in : bool)   (* CPU reading >= threshold?, outcome *)
 | EDone.                                   (* a promise reported Pass or Fail *)
 
 Definition trace := list (Z * sev).         (* (time, event), oldest first *)
 
-Definition admitted_n (tr : trace) : Z :=
+Definition let_in_n (tr : trace) : Z :=
   Z.of_nat (length (filter (fun e => match snd e with EAllow _ true => true | _ => false end) tr)).
 Definition done_n (tr : trace) : Z :=
   Z.of_nat (length (filter (fun e => match snd e with EDone => true | _ => false end) tr)).
